@@ -1093,3 +1093,25 @@ RECIPES += [
     ("C03", "neutral", [], S, "def _rmsmeth(resp):\n    return np.sqrt((resp**2).mean(axis=0))\n", "def _rmsmeth(resp):\n    return np.sqrt(np.mean(np.abs(resp) ** 2, axis=0))\n", "_rmsmeth: |x|^2 of the real response"),
     ("C03", "break", ["C03-R8"], S, "def _rmsmeth(resp):\n    return np.sqrt((resp**2).mean(axis=0))\n", "def _rmsmeth(resp):\n    return np.sqrt(np.mean(np.abs(resp) ** 3, axis=0))\n", "_rmsmeth: |x|^3"),
 ]
+
+_VRS_T_RESP = "            p2z2 = (2 * zeta * p) ** 2\n            t = ((1 + p2z2) / ((1 - p**2) ** 2 + p2z2)) * psdfull.T\n            psd_vrs[i] = t  # npsds x len(freq)\n"
+_VRS_T_COMPLEX = "            damp = 2j * zeta * p\n            H = (1 + damp) / (1 - p**2 + damp)\n            t = (np.abs(H) ** 2) * psdfull.T\n            psd_vrs[i] = t  # npsds x len(freq)\n"
+RECIPES += [
+    ("C03", "neutral", [], S, _VRS_T_RESP, _VRS_T_COMPLEX, "vrs: |H|^2 from the complex transfer function"),
+    ("C03", "break", ["C03-R6"], S, _VRS_T_RESP, _VRS_T_COMPLEX.replace("(1 - p**2 + damp)", "(1 - p**2 + 2 * damp)"), "vrs: complex transfer function with doubled damping in the denominator"),
+    ("C03", "neutral", [], S, "        sig = sig - s1\n        if stype == \"absacce\":", "        sig = sig - np.take(sig, 0, axis=0)\n        if stype == \"absacce\":", "_process_ic: first sample through np.take"),
+]
+
+RECIPES += [
+    ("C03", "break", ["C03-R9"], S, "                a[pvrb] = -fs  # / ms ... since ms == 1\n", "                np.negative(fs, out=a[pvrb])  # / ms ... since ms == 1\n",
+     "srs_frf: rigid rows written through out= into a[mask] (a copy: the write is lost)"),
+    ("C03", "neutral", [], S, "                a[pvrb] = -fs  # / ms ... since ms == 1\n", "                a[pvrb] = np.negative(fs)  # / ms ... since ms == 1\n", "srs_frf: rigid rows through np.negative"),
+    ("C03", "neutral", [], S, "            shk[:, j] = abs(a).max(axis=1)\n", "            np.amax(np.abs(a), axis=1, out=shk[:, j])\n", "srs_frf: peak written through out= into a column view"),
+    ("C03", "break", ["C03-R9"], S, "            shk[:, j] = abs(a).max(axis=1)\n", "            np.amax(np.abs(a), axis=0, out=shk[:, j])\n", "srs_frf: out= peak over the oscillator axis"),
+]
+
+RECIPES += [
+    ("C03", "neutral", [], S, "        nzeros = int(np.ceil(sr / minf))\n", "        nzeros = int(-(-sr // minf))\n", "_add_one_cycle: ceil by negated floor division"),
+    ("C03", "break", ["C03-R4"], S, "        nzeros = int(np.ceil(sr / minf))\n", "        nzeros = int(sr // minf)\n", "_add_one_cycle: floor division (a partial cycle)"),
+    ("C03", "break", ["C03-R4"], S, "        nzeros = int(np.ceil(sr / minf))\n", "        nzeros = int(np.round(sr / minf))\n", "_add_one_cycle: rounded to nearest"),
+]
